@@ -31,8 +31,9 @@ MANIFEST = dict(
        "Gaussian/polynomial/linear only - derivatives of ARD, normalised, scaled, weighted-sum, sub-range, monomial kernels are exercised by the "
        "finite-difference oracle only (toleranced 2e-5), the Gaussian derivative correspondence is bit-exact on 1x1 blocks only; "
        "ModelKernel/PointSetKernel/MultiTaskKernel and the unconstrained parameter encodings are not modelled; ARD, normalised and sub-range kernels "
-       "cannot be instantiated for sparse inputs in Shark, so the sparse runs cover the other kernels. The check reports three genuine defects on "
-       "the unpatched tree (findings_proposed/C05.md: normalized-stateless-block, discrete-block-ignores-indices, monomial-degree1-input-derivative).",
+       "cannot be instantiated for sparse inputs in Shark, so the sparse runs cover the other kernels. Four genuine defects found by this check "
+       "(normalized-stateless-block, discrete-block-ignores-indices, monomial-degree1-input-derivative, product-uninitialised-parameter-count) "
+       "are repaired in /repo by fix: commits ceaec0f1, f2e5cee8, e15da9fc, dba592e9; their inputs stay in corpus/C05 and the model is the repaired code.",
   technique="Lean 4 proofs by structural induction over a kernel expression language + Mathlib PosSemidef/HasDerivAt + differential correspondence with the C++ (exact / bit mode, ASan/UBSan)",
   design="§6 C05")
 
